@@ -335,12 +335,8 @@ fn build_coinbase(shape: usize, height: u32, fees: u64, prefix: &[bitcoin::Block
 }
 
 /// Executes one history under one configuration.
-pub fn exec(w: &mut Worker, cfg: &IndexCfg, l: usize, choices: &Choices) -> Exec {
-  let mut e = Exec::default();
-  w.restore_prefix();
-  let prefix = w.prefix_blocks.clone();
-
-  // --- build all blocks first (so a disabled history costs nothing) ---
+/// Builds the enumerated blocks of a history. None = disabled (a role cannot be resolved).
+pub fn build_history(prefix: &[bitcoin::Block], l: usize, choices: &Choices) -> Option<(Vec<Vec<Transaction>>, Value)> {
   let mut prev: Option<Placed> = None;
   let mut spent: BTreeSet<OutPoint> = BTreeSet::new();
   let mut blocks: Vec<Vec<Transaction>> = Vec::new();
@@ -358,10 +354,7 @@ pub fn exec(w: &mut Worker, cfg: &IndexCfg, l: usize, choices: &Choices) -> Exec
       }
       let t = &TEMPLATES[c - 1];
       let q = b * SLOTS + s;
-      let Some(built) = build_template(t, q, &prefix, &mut prev, &mut spent) else {
-        e.disabled = true;
-        return e;
-      };
+      let built = build_template(t, q, prefix, &mut prev, &mut spent)?;
       fees += built.fee;
       names.push(t.name);
       prev = Some(Placed {
@@ -372,16 +365,24 @@ pub fn exec(w: &mut Worker, cfg: &IndexCfg, l: usize, choices: &Choices) -> Exec
       txs.push(built.tx);
     }
     let g = choices[b * (SLOTS + 1) + SLOTS] as usize;
-    let Some(cb) = build_coinbase(g, height, fees, &prefix, 0) else {
-      e.disabled = true;
-      return e;
-    };
+    let cb = build_coinbase(g, height, fees, prefix, 0)?;
     rendered.push(json!({"height": height, "coinbase": COINBASE_SHAPES[g], "txs": names}));
     let mut all = vec![cb];
     all.extend(txs);
     blocks.push(all);
   }
-  e.rendered = Value::Array(rendered);
+  Some((blocks, Value::Array(rendered)))
+}
+
+pub fn exec(w: &mut Worker, cfg: &IndexCfg, l: usize, choices: &Choices) -> Exec {
+  let mut e = Exec::default();
+  w.restore_prefix();
+  let prefix = w.prefix_blocks.clone();
+  let Some((blocks, rendered)) = build_history(&prefix, l, choices) else {
+    e.disabled = true;
+    return e;
+  };
+  e.rendered = rendered;
 
   // --- reference model over the prefix ---
   let mut model = SatModel::default();
@@ -888,4 +889,13 @@ pub fn bench_rpc() {
 
 fn settings_runtime() -> tokio::runtime::Runtime {
   tokio::runtime::Builder::new_multi_thread().enable_all().build().unwrap()
+}
+
+pub fn template_names() -> &'static [&'static str] {
+  static NAMES: std::sync::LazyLock<Vec<&'static str>> = std::sync::LazyLock::new(|| TEMPLATES.iter().map(|t| t.name).collect());
+  &NAMES
+}
+
+pub fn coinbase_shape_names() -> &'static [&'static str] {
+  COINBASE_SHAPES
 }
